@@ -282,6 +282,10 @@ class ANSI (term):
         """Process a single character. Called by :meth:`write`."""
         if isinstance(c, bytes):
             c = self._decode(c)
+            if not c:
+                # Part of a multi-byte character: the decoder keeps it until
+                # the rest arrives.
+                return
         self.state.process(c)
 
     def process_list (self, l):
@@ -307,6 +311,10 @@ class ANSI (term):
 
         if isinstance(ch, bytes):
             ch = self._decode(ch)
+            if not ch:
+                # Part of a multi-byte character: the decoder keeps it until
+                # the rest arrives.
+                return
 
         #\r and \n both produce a call to cr() and lf(), respectively.
         ch = ch[0]
